@@ -38,23 +38,26 @@ import sys, importlib.util
 spec = importlib.util.spec_from_file_location("mpt_client", sys.argv[1])
 mod = importlib.util.module_from_spec(spec)
 spec.loader.exec_module(mod)
+fn = getattr(mod, sys.argv[2])
 for ln in sys.stdin:
     ln = ln.strip()
     msg = b"" if ln == "-" else bytes.fromhex(ln)
     try:
-        out = bytes(mod.encode_cobs(bytearray(msg)))
+        out = bytes(fn(bytearray(msg)))
         print(out.hex() if out else "-")
+    except ValueError as e:
+        print("raise")
     except Exception as e:
         print("ee")
     sys.stdout.flush()
 """
 
 
-def py_encode(msgs):
-    """run mpt.py:encode_cobs of the tree under test on every message (one python3 process)"""
+def py_encode(msgs, fn="encode_cobs"):
+    """run mpt.py:<fn> of the tree under test on every message (one python3 process)"""
     path = os.path.join(build.REPO, "mpt.py")
     inp = "\n".join(gen.hexs(m) for m in msgs) + "\n"
-    r = subprocess.run([sys.executable, "-c", PYHELPER, path], input=inp.encode(), stdout=subprocess.PIPE,
+    r = subprocess.run([sys.executable, "-c", PYHELPER, path, fn], input=inp.encode(), stdout=subprocess.PIPE,
                        stderr=subprocess.PIPE, timeout=600)
     out = r.stdout.decode().split("\n")
     res = []
@@ -201,6 +204,17 @@ def scripts(tier, seed, scale=1):
                 chunk = "one" if capm == "exact" else chunk
             via = r.choice(["window", "window", "array"])
             out.append(("bd:%s:%d" % (codec, k), script_for(r, codec, ms, chunk, capm, via)))
+    # ---- stream 2b: mpt_array_push with a maximal block ending exactly at the end of the array buffer
+    # (usable sizes are 64, 192, 320, ...): a first push of l1 bytes ending in a zero, then full blocks
+    for codec in CODECS[:4]:
+        full = 222 if "zpe" in codec else 254
+        for l1 in list(range(60, 71)) + list(range(92, 103)) + [2, 1]:
+            for l2 in (full, 2 * full, full + 1):
+                first = [0x11] * (l1 - 1) + [0]
+                second = [1 + (i % 200) for i in range(l2)]
+                out.append(("ap:%s:%d:%d" % (codec, l1, l2),
+                            ["apush new " + codec, "apush push " + gen.hexs(first), "apush push " + gen.hexs(second),
+                             "apush term", "apush check", "apush push " + gen.hexs(second[:full]), "apush term", "apush check"]))
     # ---- stream 3: random structured, incl. rejected command text, plus the Python encoder
     r = gen.rng(id, tier, seed, "random")
     nr = (60 if tier == "quick" else 600) * scale
@@ -234,6 +248,11 @@ def scripts(tier, seed, scale=1):
     frames = py_encode(pm)
     for k in range(0, len(pm), 16):
         out.append(("py:%d" % k, ["py %s %s" % (gen.hexs(m), f) for m, f in zip(pm[k:k + 16], frames[k:k + 16])]))
+    # Python client command framing (admits exactly the zero-free messages)
+    cm = [m for m in msgs if len(m) <= 3] + [[0x68] * 300, [0x68] * 299 + [0], [0] + [0x69] * 40]
+    cframes = py_encode(cm, "encode_command")
+    for k in range(0, len(cm), 16):
+        out.append(("pycmd:%d" % k, ["pycmd %s %s" % (gen.hexs(m), f) for m, f in zip(cm[k:k + 16], cframes[k:k + 16])]))
     return out
 
 
@@ -278,6 +297,8 @@ def nontrivial(script, c_lines):
                     special = True      # tail inline
                     break
                 i += 1 + n
+    if script and script[0].startswith("pycmd "):
+        return any("00" in [op.split()[1][i:i + 2] for i in range(0, len(op.split()[1]), 2)] for op in script)
     if script and script[0].startswith("py "):
         return any(len(op.split()[1]) >= 2 * 254 for op in script)
     return finished and special
@@ -287,7 +308,7 @@ def tally(chk, script, c_lines):
     chk.exhaustive = True   # stream 1 enumerates its stated scope completely
     d = chk.__dict__.setdefault("distribution", {})
     w = script[0].split()
-    k = "%s:%s" % (w[0], w[2] if len(w) > 2 and w[0] != "py" else "-")
+    k = "%s:%s" % (w[0], w[2] if len(w) > 2 and w[0] not in ("py", "pycmd") else "-")
     d[k] = d.get(k, 0) + 1
     for ln in c_lines:
         if ln.startswith("R refused"):
